@@ -75,6 +75,12 @@ def main():
         for s in res["samples"]:
             chk.sample(s)
         chk.cov["traces_validated_against_impl"] += res["cases"] - res["skipped"]
+    # code -> spec: random reflect-built documents and expressions, validated by TLC
+    rec, bad = vlib.run_random(chk, "c01-random", chk.seed, 60 if chk.tier == "quick" else 1500, 60)
+    for b in bad:
+        chk.violation({"world": "random", **b})
+    for k, v in rec["by"].items():
+        by[k] = by.get(k, 0) + v
     chk.cov["distinct_nontrivial"] = by.get("T", 0) + by.get("F", 0)
     chk.notes["rule"] = ("every tree TLC builds (all atoms singly; <=3-node combinations over a seeded pool; quantifier shells in "
                          "all four binding modes) x every configuration and document of the world; non-trivial = the real "
